@@ -138,6 +138,18 @@ Definition asls (hp : bool) (bs : Z) (N : nat) (lam : Z) (d : nat) (wl : list (Z
   | None => None
   end.
 
+(* utils.whittaker_smooth: PenalizedSystem(len_y, lam=lam, diff_order=diff_order) with the constructor
+   defaults (allow_lower=True, reverse_diags=None, allow_pentapy=True, padding=0), then
+   solve(add_diagonal(weight_array), weight_array * y).  diff_order = 0 is accepted by the code. *)
+Definition whittaker_smooth (hp : bool) (N : nat) (lam : Z) (d : nat) (w y : Z -> Z) : option call :=
+  let c := {| c_lam := lam; c_d := d; c_allow_lower := true; c_rev := None; c_allow_penta := true;
+              c_pad := 0 |} in
+  match reset hp N None c with
+  | Some s => let ws' := add_diagonal (of_sys s) w in
+              Some (solve_call ws' (w_pen ws') (mulv w y) None)
+  | None => None
+  end.
+
 (* iasls: d1_y[0] = y[0]-y[1]; d1_y[-1] = y[-1]-y[-2]; d1_y[1:-1] = 2y[1:-1]-y[:-2]-y[2:]  (N >= 2) *)
 Definition d1y (N : Z) (y : Z -> Z) : Z -> Z := fun i =>
   if (1 <=? i) && (i <? N - 1) then 2 * y i - y (i - 1) - y (i + 1)
